@@ -48,6 +48,9 @@ pub fn errk(e: &Error) -> &'static str {
         Error::FormatError(_) => "FormatError",
         Error::ParseError(_) => "ParseError",
         Error::TryReserveError(_) => "TryReserveError",
+        // a variant added to the crate later must not break the harness build
+        #[allow(unreachable_patterns)]
+        _ => "OtherError",
     }
 }
 
